@@ -387,6 +387,7 @@ func (r *Router) Run(ctx context.Context) (err error) {
 		return err
 	}
 
+	verifhook.At("router.run.before_running", "", "")
 	close(r.running)
 
 	<-r.closingInProgressCh
